@@ -80,6 +80,8 @@ pub struct Opts {
     /// state key = kind classes + aliasing relation among the roots (stack slots, memo entries): which roots are the
     /// same cell and which root reaches which through >= 1 edges. Sound for cycle creation (see DESIGN §10.8).
     pub alias_key: bool,
+    /// use the full variant tag per slot instead of the collapsed class (fallback when the class key turns out too coarse)
+    pub fine_key: bool,
     /// states one slot deeper than the box are still expanded with their operand-consuming opcodes
     /// (their successors are checked, not enqueued): guards are exercised at depth D+1 at a fraction of the cost
     pub fringe_consumers: bool,
@@ -106,6 +108,7 @@ impl Default for Opts {
             collect_runs: false,
             fringe_consumers: false,
             alias_key: false,
+            fine_key: false,
         }
     }
 }
@@ -135,6 +138,8 @@ pub struct Stats {
     /// runs that returned no bytes (panic / Err): the property's oracle cannot judge them (C09's business)
     pub no_output_runs: u64,
     pub fringe_states: u64,
+    /// splits seen by a first pass with the collapsed class key (the reported pass then used full variant tags)
+    pub coarse_key_splits: u64,
     pub unselectable_choices: u64,
     pub fringe_transitions: u64,
     pub first_no_output: Option<String>,
@@ -161,6 +166,7 @@ impl Stats {
         self.machinery_errors.extend(o.machinery_errors.iter().cloned());
         self.no_output_runs += o.no_output_runs;
         self.fringe_states += o.fringe_states;
+        self.coarse_key_splits += o.coarse_key_splits;
         self.unselectable_choices += o.unselectable_choices;
         self.fringe_transitions += o.fringe_transitions;
         if self.first_no_output.is_none() {
@@ -197,7 +203,18 @@ pub fn gen_class(t: u8) -> u8 {
         tag::STRING => 5,
         tag::CALLABLE | tag::GLOBAL => 6,
         tag::INSTANCE => 7,
+        // bytes-like objects are told apart from the other scalars since READONLY_BUFFER's guard asks for them
+        tag::BYTES | tag::BYTEARRAY => 9,
         _ => 8,
+    }
+}
+
+/// slot class used in keys: the collapsed class, or (fine mode) the full variant tag
+fn slot_class(t: u8, fine: bool) -> u8 {
+    if fine {
+        0x40 | t
+    } else {
+        gen_class(t)
     }
 }
 
@@ -216,12 +233,22 @@ pub fn kind_key(
     valid: &[u8],
     refstate: Option<(&[Kind], &BTreeMap<i128, Kind>)>,
 ) -> (Vec<u8>, Vec<u8>) {
+    kind_key_f(use_frame, snap, valid, refstate, false)
+}
+
+pub fn kind_key_f(
+    use_frame: bool,
+    snap: &Snap,
+    valid: &[u8],
+    refstate: Option<(&[Kind], &BTreeMap<i128, Kind>)>,
+    fine: bool,
+) -> (Vec<u8>, Vec<u8>) {
     let mut k = Vec::with_capacity(16 + 2 * snap.stack.len() + 4 * snap.memo.len());
     k.push(use_frame as u8);
     k.push(snap.proto_emitted as u8);
     k.push(snap.stack.len() as u8);
     for (i, t) in snap.stack.iter().enumerate() {
-        k.push(gen_class(*t));
+        k.push(slot_class(*t, fine));
         if let Some((rs, _)) = refstate {
             k.push(rs.get(i).map(|x| x.class()).unwrap_or(0xff));
         }
@@ -229,7 +256,7 @@ pub fn kind_key(
     k.push(snap.memo.len() as u8);
     for (key, t) in &snap.memo {
         k.extend_from_slice(&(*key as u32).to_le_bytes());
-        k.push(gen_class(*t));
+        k.push(slot_class(*t, fine));
         if let Some((_, rm)) = refstate {
             k.push(rm.get(&(*key as i128)).map(|x| x.class()).unwrap_or(0xff));
         }
@@ -382,7 +409,7 @@ impl<'a> Explorer<'a> {
         let use_frame = tr.use_frame.unwrap_or(false);
         let (key, base_key) = if self.opts.alias_key {
             let g = tr.graphs.iter().find(|(ol, _)| *ol == snap.out_len).map(|(_, g)| g.clone());
-            let (mut kk, _) = kind_key(use_frame, &snap, &valid, None);
+            let (mut kk, _) = kind_key_f(use_frame, &snap, &valid, None, self.opts.fine_key);
             if let Some(g) = g {
                 let roots: Vec<u32> = g.stack.iter().copied().chain(g.memo.iter().map(|(_, n)| *n)).collect();
                 // strict reachability (>= 1 edge) from every root node
@@ -440,15 +467,15 @@ impl<'a> Explorer<'a> {
                         .iter()
                         .filter_map(|k| mr.machine.memo.get(k).map(|v| (*k, *v)))
                         .collect();
-                    kind_key(use_frame, &snap, &valid, Some((st.as_slice(), &memo_then)))
+                    kind_key_f(use_frame, &snap, &valid, Some((st.as_slice(), &memo_then)), self.opts.fine_key)
                 }
                 _ => {
                     let empty = BTreeMap::new();
-                    kind_key(use_frame, &snap, &valid, if snap.out_len == 0 { Some((&[], &empty)) } else { None })
+                    kind_key_f(use_frame, &snap, &valid, if snap.out_len == 0 { Some((&[], &empty)) } else { None }, self.opts.fine_key)
                 }
             }
         } else {
-            kind_key(use_frame, &snap, &valid, None)
+            kind_key_f(use_frame, &snap, &valid, None, self.opts.fine_key)
         };
         let rep = Rep { script: script[..tr.consumed.min(script.len())].to_vec(), k, enabled: valid };
         let mut rep = rep;
@@ -630,8 +657,26 @@ impl<'a> Explorer<'a> {
         (out, exp)
     }
 
-    /// breadth-first closure from the given start representatives (or the initial states)
+    /// breadth-first closure; if the class key turns out too coarse (two states with equal classes but different
+    /// enabled-opcode masks: `abstraction_splits`), the closure is repeated with the full variant tags in the key
     pub fn explore(&self, start: Option<Vec<Rep>>) -> Outcome {
+        let out = self.explore_once(start.clone());
+        if out.stats.abstraction_splits == 0 || self.opts.fine_key || self.opts.shape_key {
+            return out;
+        }
+        let mut opts = self.opts.clone();
+        opts.fine_key = true;
+        let ex2 = Explorer { base_cfg: self.base_cfg.clone(), opts, monitor: self.monitor, xval_full: Default::default(), choice_discovery: Default::default() };
+        let mut out2 = ex2.explore_once(start);
+        out2.stats.coarse_key_splits = out.stats.abstraction_splits;
+        out2.stats.runs += out.stats.runs;
+        // findings of the first pass are real runs as well
+        out2.found.extend(out.found);
+        out2
+    }
+
+    /// breadth-first closure from the given start representatives (or the initial states)
+    pub fn explore_once(&self, start: Option<Vec<Rep>>) -> Outcome {
         let mut stats = Stats::default();
         let mut seen: HashSet<u128> = HashSet::new();
         let mut base_seen: HashMap<u128, u32> = HashMap::new();
